@@ -9,6 +9,7 @@
 package dvsim
 
 import (
+	"runtime"
 	"fmt"
 	"sort"
 	"strings"
@@ -30,6 +31,7 @@ import (
 	sec "github.com/named-data/ndnd/std/security"
 	"github.com/named-data/ndnd/std/utils"
 
+	"verifsim/facesim"
 	"verifsim/kit"
 )
 
@@ -50,6 +52,10 @@ type Op struct {
 	Ms     int    `json:"ms,omitempty"`
 	Prefix string `json:"prefix,omitempty"`
 	Count  int    `json:"count,omitempty"` // announce: repeat with numbered prefixes (log gaps > 100)
+	// corrupt: the K-th in-flight message is altered in transit (C04 runs only)
+	Mut string `json:"mut,omitempty"`
+	At  int    `json:"at,omitempty"`
+	Val uint64 `json:"val,omitempty"`
 }
 
 type Engine struct{}
@@ -176,9 +182,13 @@ func (Engine) Generate(prop string, r *kit.Rand, tier string) *kit.Scenario[Conf
 	if r.Chance(0.4) {
 		nops = r.Range(3, 20)
 	}
-	wTick, wDeliver, wDrop, wDup, wAdv, wLink, wCrash, wPfx, wReface, wDead, wMgmt := 14, 40, 4, 3, 10, 4, 2, 0, 0, 4, 0
+	wTick, wDeliver, wDrop, wDup, wAdv, wLink, wCrash, wPfx, wReface, wDead, wMgmt, wCorrupt := 14, 40, 4, 3, 10, 4, 2, 0, 0, 4, 0, 0
 	if prop == "C19" {
 		wPfx, wReface, wMgmt = 12, 2, 2
+	}
+	if prop == "C04" {
+		// a hostile or faulty link: routing, prefix-sync and advertisement packets are corrupted in transit
+		wPfx, wCorrupt, wCrash, wLink = 10, 25, 1, 2
 	}
 	down := map[[2]int]bool{}
 	crashed := map[int]bool{}
@@ -250,7 +260,25 @@ func (Engine) Generate(prop string, r *kit.Rand, tier string) *kit.Scenario[Conf
 		nops = r.Range(0, 12)
 	}
 	for i := 0; i < nops; i++ {
-		switch r.Weighted([]int{wTick, wDeliver, wDrop, wDup, wAdv, wLink, wCrash, wPfx, wReface, wDead, wMgmt}) {
+		switch r.Weighted([]int{wTick, wDeliver, wDrop, wDup, wAdv, wLink, wCrash, wPfx, wReface, wDead, wMgmt, wCorrupt}) {
+		case 11:
+			o := Op{Op: "corrupt", K: r.Intn(16)}
+			huge := []uint64{0, 1, 2, 127, 252, 253, 254, 255, 256, 65535, 65536, 1 << 31, 1<<32 - 1, 1 << 32, 1<<63 - 1, 1 << 63, 1<<64 - 1}
+			switch r.Weighted([]int{4, 5, 2, 3, 3, 2}) {
+			case 0:
+				o.Mut, o.At, o.Val = "len", r.Intn(64), kit.Pick(r, huge)
+			case 1:
+				o.Mut, o.At, o.Val = "lenfix", r.Intn(64), kit.Pick(r, huge)
+			case 2:
+				o.Mut, o.At = "trunc", r.Intn(2000)
+			case 3:
+				o.Mut, o.At, o.Val = "flip", r.Intn(2000), uint64(1+r.Intn(255))
+			case 4:
+				o.Mut, o.At, o.Val = "type", r.Intn(64), uint64(r.Intn(256))
+			case 5:
+				o.Mut, o.At, o.Val = "insert", r.Intn(2000), uint64(r.Intn(1<<16))
+			}
+			sc.Ops = append(sc.Ops, o, Op{Op: "deliver", K: o.K})
 		case 0:
 			sc.Ops = append(sc.Ops, Op{Op: "tick", R: r.Intn(c.N)})
 		case 1:
@@ -456,9 +484,11 @@ type message struct {
 	node  enc.Name // pfxsync
 	high  uint64
 	incarnDst int
+	corrupted bool
 }
 
 type world struct {
+	corruptDelivered int
 	ctx     *kit.Ctx
 	sc      *kit.Scenario[Config, Op]
 	res     *kit.Result
@@ -499,6 +529,11 @@ func lk(a, b int) [2]int {
 }
 
 func (w *world) fail(class, key, format string, a ...any) {
+	// a C04 run corrupts routing traffic: what the tables then hold is not judged, only that nothing crashes,
+	// hangs or allocates out of proportion
+	if w.sc.Property == "C04" && !strings.HasPrefix(class, "C04/") {
+		return
+	}
 	if w.res.Violation == nil {
 		w.res.Violation = &kit.Violation{Class: class, Key: key, Step: w.step, Detail: fmt.Sprintf(format, a...)}
 	}
@@ -883,6 +918,18 @@ func (w *world) deliver(m *message) {
 			w.ctx.Fault("lost-on-failed-link")
 			return
 		}
+		if m.corrupted {
+			w.corruptDelivered++
+			var ms0, ms1 runtime.MemStats
+			runtime.ReadMemStats(&ms0)
+			dst.face.onPkt(enc.NewBufferReader(append([]byte(nil), m.frame...)))
+			synctest.Wait()
+			runtime.ReadMemStats(&ms1)
+			if grown := ms1.TotalAlloc - ms0.TotalAlloc; grown > 4<<20+64*uint64(len(m.frame)) {
+				w.fail("C04/allocation-out-of-proportion", "dv/"+m.kind, "a corrupted %s packet of %d bytes made the router allocate %d bytes", m.kind, len(m.frame), grown)
+			}
+			return
+		}
 		dst.face.onPkt(enc.NewBufferReader(append([]byte(nil), m.frame...)))
 	case "pfxsync":
 		// state-vector sync reports a node's sequence number only when it is higher than what it reported before
@@ -1002,6 +1049,25 @@ func (w *world) run() {
 					w.deliver(m)
 				}
 			}
+		case "corrupt":
+			w.sortInflight()
+			if len(w.inflight) > 0 {
+				m := w.inflight[o.K%len(w.inflight)]
+				if len(m.frame) > 0 {
+					m.frame = facesim.Mutate(m.frame, o.Mut, o.At, o.Val)
+					m.corrupted = true
+					if !w.res.Ambiguous {
+						// what a router makes of a corrupted advertisement (duplicate destinations, odd costs) may
+						// depend on map order inside dv; the tables are not judged in a C04 run
+						w.res.Ambiguous = true
+						w.ctx.Logf("step %d: routing packet corrupted; log ends here", w.step)
+						if w.ctx != nil {
+							w.ctx.Log = nil
+						}
+					}
+					w.ctx.Fault("corrupt-" + m.kind + "-" + o.Mut)
+				}
+			}
 		case "advance":
 			w.pump(time.Duration(o.Ms) * time.Millisecond)
 		case "linkdown":
@@ -1040,7 +1106,27 @@ func (w *world) run() {
 				changedPrefix = true
 			}
 		case "settle":
-			w.settle()
+			if w.sc.Property == "C04" {
+				// corrupted routing state need not converge: a bounded quiet phase instead of the fixed-point search
+				for round := 0; round < 3; round++ {
+					for _, n := range w.nodes {
+						if n.alive {
+							n.router.VerifHeartbeat()
+						}
+					}
+					w.pump(20 * time.Millisecond)
+					for d := 0; d < 150 && len(w.inflight) > 0; d++ {
+						w.sortInflight()
+						m := w.inflight[0]
+						w.inflight = w.inflight[1:]
+						w.deliver(m)
+						w.pump(time.Millisecond)
+					}
+					w.pump(time.Duration(c.AdvertMs) * time.Millisecond)
+				}
+			} else {
+				w.settle()
+			}
 		}
 		if w.res.Violation != nil {
 			break
@@ -1068,6 +1154,8 @@ func (w *world) run() {
 	w.res.SimNanos = int64(w.now())
 	w.res.Digest = dg.Sum()
 	switch w.sc.Property {
+	case "C04":
+		w.res.NonTrivial = w.corruptDelivered > 0
 	case "C18":
 		w.res.NonTrivial = c.N >= 3 && w.maxAdvRounds >= 2
 	default:
